@@ -27,7 +27,13 @@ def make_ds(ctx, rng, d):
     kinds = rng.sample(["int32", "float_nan", "str", "bool", "dt_ns", "Int64", "cat_str"], 3)
     for j, k in enumerate(kinds):
         df[f"c{j}"] = gen_column(rng, k, n, rng.choice(["none", "some"])).values if k not in ("Int64", "cat_str") else gen_column(rng, k, n, "some")
-    layout = rng.choice(["simple", "simple", "hive"])
+    layout = rng.choice(["simple", "simple", "hive", "hive-part2"])
+    if d == 1:
+        layout = "hive-part2"
+    if layout == "hive-part2":
+        # two partition keys: column subsets may then name a later key without an earlier one
+        df["p"] = np.array([rng.randrange(0, 2) for _ in range(n)], dtype="int64")
+        df["q"] = pd.Series([rng.choice(["u", "v"]) for _ in range(n)], dtype=object)
     with_index = rng.random() < 0.3 and n > 0
     if with_index:
         df.index = pd.Index(np.arange(100, 100 + n, dtype="int64"), name="ix")
@@ -43,6 +49,8 @@ def make_ds(ctx, rng, d):
     kw = dict(row_group_offsets=offs, write_index=with_index)
     if layout == "simple":
         fastparquet.write(path, df, **kw)
+    elif layout == "hive-part2":
+        fastparquet.write(path, df, file_scheme="hive", partition_on=["p", "q"], **kw)
     else:
         fastparquet.write(path, df, file_scheme="hive", **kw)
     return path, df, layout, with_index, kinds
@@ -88,6 +96,7 @@ def run(ctx, report):
             report.violation({"check": "full-read", "what": "full read raised " + canon_err(e), "sig": "full-read"})
             continue
         full_rids = full["rid"].tolist()
+        pos_of = {r: i for i, r in enumerate(full_rids)}      # the model speaks of positions in the full read
         starts = np.cumsum([0] + sizes).tolist()
         rgs_s = "[" + ",".join("[" + ",".join(map(str, range(starts[i], starts[i + 1]))) + "]" for i in range(len(sizes))) + "]"
         cols_all = [c for c in full.columns]
@@ -138,6 +147,11 @@ def run(ctx, report):
                     if variant == "pickle" and rng.random() < 0.3:
                         h = pickle.loads(pickle.dumps(h))
                 term = rng.choice(["read", "read", "head", "iter", "count", "len", "cols", "index"])
+                forced_cols = None
+                if layout == "hive-part2" and p < 4:
+                    # directed: a later partition key without an earlier one, and the other way round
+                    term = "cols"
+                    forced_cols = [["rid", "q"], ["q", "c0"], ["c1", "p", "rid"], ["q", "rid", "p"]][p]
                 rec.update({"selections": steps_desc, "terminal": term})
                 prog_s = "[" + ",".join(steps_enc) + "]"
                 if err:
@@ -151,7 +165,7 @@ def run(ctx, report):
                 if term == "read":
                     got = h.to_pandas()
                     rids = got["rid"].tolist()
-                    reqs.append((f"access run rgs={rgs_s} prog={prog_s} term=[read]", ("rows", rids), rec))
+                    reqs.append((f"access run rgs={rgs_s} prog={prog_s} term=[read]", ("rows", [pos_of[r] for r in rids]), rec))
                     probs += expect_rows(rids, cols_all, got, rec)
                     if h.count() != len(got) or h.info["rows"] != len(got) or len(h) != len(cur_sizes) or h.info["row_groups"] != len(cur_sizes):
                         probs.append(f"reported counts (count={h.count()}, info={h.info['rows']}, len={len(h)}) differ from rows read {len(got)} / row groups {len(cur_sizes)}")
@@ -161,7 +175,7 @@ def run(ctx, report):
                     rec["n"] = n
                     got = h.head(n)
                     rids = got["rid"].tolist()
-                    reqs.append((f"access run rgs={rgs_s} prog={prog_s} term=[head,{n}]", ("rows", rids), rec))
+                    reqs.append((f"access run rgs={rgs_s} prog={prog_s} term=[head,{n}]", ("rows", [pos_of[r] for r in rids]), rec))
                     whole = h.to_pandas()
                     if rids != whole["rid"].tolist()[:n]:
                         probs.append(f"head({n}) returned rids {rids[:8]} instead of the first {n} rows of the handle's read")
@@ -172,7 +186,7 @@ def run(ctx, report):
                     frames = list(h.iter_row_groups(columns=usecols) if usecols else h.iter_row_groups())
                     rec["iter_columns"] = usecols
                     rids_f = [f["rid"].tolist() for f in frames]
-                    reqs.append((f"access run rgs={rgs_s} prog={prog_s} term=[iter]", ("frames", rids_f), rec))
+                    reqs.append((f"access run rgs={rgs_s} prog={prog_s} term=[iter]", ("frames", [[pos_of[r] for r in fr] for fr in rids_f]), rec))
                     allr = [r for fr in rids_f for r in fr]
                     if allr != h.to_pandas()["rid"].tolist():
                         probs.append("iter_row_groups concatenated differs from the handle's full read")
@@ -194,6 +208,8 @@ def run(ctx, report):
                         probs.append("len() differs from the number of row groups")
                 elif term == "cols":
                     cols = rng.sample(cols_all, rng.randrange(1, len(cols_all) + 1))
+                    if forced_cols is not None and all(c in cols_all for c in forced_cols):
+                        cols = forced_cols
                     rec["columns"] = cols
                     got = h.to_pandas(columns=cols)
                     if list(got.columns) != cols:
@@ -224,15 +240,19 @@ def run(ctx, report):
                         probs += diff_frames(whole[rest].reset_index(drop=True), got[rest].reset_index(drop=True))
                     nontrivial = mode is not False
                 if probs:
-                    report.violation({**rec, "what": "; ".join(probs)[:400], "sig": f"{term}:{probs[0][:28]}", "terminal": term})
+                    empty_part = layout == "hive-part2" and len(cur_sizes) == 0 and all(("'p'" in p_ or "'q'" in p_) and "columns" in p_ for p_ in probs)
+                    report.violation({**rec, "what": "; ".join(probs)[:400], "sig": f"{term}:{probs[0][:28]}", "terminal": term,
+                                      "empty_handle_partition_columns": empty_part})
                 report.case(("prog", d, tuple(steps_desc), term, rec.get("n"), str(rec.get("columns")), str(rec.get("index")), variant), nontrivial,
                             sample=rec if nontrivial and len(report.samples) < 5 else None)
                 report.count("term:" + term)
                 report.count("handle:" + variant)
                 report.stream("access.run")
             except Exception as e:  # noqa
+                empty_part = layout == "hive-part2" and len(cur_sizes) == 0 and "not available" in str(e) and ("'p'" in str(e) or "'q'" in str(e))
                 report.violation({**rec, "what": "partial read raised: " + canon_err(e) + " " + str(e)[:150], "exc": canon_err(e),
-                                  "empty_dataset": len(sizes) == 0, "sig": f"raised:{rec.get('terminal')}:{canon_err(e)}"})
+                                  "empty_dataset": len(sizes) == 0, "sig": f"raised:{rec.get('terminal')}:{canon_err(e)}",
+                                  "empty_handle_partition_columns": empty_part})
         shutil.rmtree(path, ignore_errors=True) if os.path.isdir(path) else (os.path.exists(path) and os.remove(path))
     if reqs and ctx.model_ok:
         reps = ctx.driver.ask([r[0] for r in reqs])
